@@ -95,7 +95,7 @@ def member_decls(relpath, cls):
     return out
 
 
-SIMPLE_T = {"Index": "Index", "int": "int", "bool": "_Bool", "Scalar": "Scalar", "RealScalar": "Scalar", "long": "long", "unsigned": "unsigned",
+SIMPLE_T = {"RealMatrix": "Mat", "Matrix": "Mat", "ComplexMatrix": "Mat", "RealVector": "Scalar *", "Vector": "Scalar *", "Index": "Index", "int": "int", "bool": "_Bool", "Scalar": "Scalar", "RealScalar": "Scalar", "long": "long", "unsigned": "unsigned",
             "std::size_t": "unsigned long", "size_t": "unsigned long"}
 
 
@@ -640,9 +640,10 @@ def expand_basis_spec():
                       ("seed of the library form 2*i", "0 <= seed && seed <= 2 * NMAX"),
                       ("counters bounded", "0 <= g_ops && g_ops <= 3 * CAP && 0 <= (*op_counter) && (*op_counter) <= 3 * CAP")],
                  post=[("exactly one operator application, counted", "g_ops == old_ops + 1 && (*op_counter) == old_cnt + 1"),
-                       ("norm of the new residual is non-negative", "(*fnorm) >= (Scalar)0")],
+                       ("norm of the new residual is non-negative", "(*fnorm) >= (Scalar)0"),
+                       ("a restart vector that passed the orthogonality test has a nonzero norm (the caller divides by it)", "!g_accepted || (*fnorm) > (Scalar)0")],
                  exc_post=[("the operator threw: it was entered once and not counted", "verif_exc == EXC_user && g_ops == old_ops + 1 && (*op_counter) == old_cnt")],
-                 frame=["*fnorm", "*op_counter", "g_ops"], frame_objs=["f"], may_throw=[7],
+                 frame=["*fnorm", "*op_counter", "g_ops", "g_accepted"], frame_objs=["f"], may_throw=[7],
                  olds=[("Index", "old_ops", "g_ops"), ("Index", "old_cnt", "*op_counter")], real=AH + ":expand_basis")
 
 
@@ -653,16 +654,17 @@ def f_expand_basis(report):
     t, R = cgen.emit(f, "expand_basis", ret_c="void", self_type="Fac", self_name="F", members=FAC_MEMBERS,
                      param_types={"V": "Mat", "seed": "Index", "f": "Scalar *", "fnorm": "REF", "op_counter": "REF"},
                      extra_rules=[("rng", r"SimpleRandom<Scalar> rng\(([^;]+)\);", r"const Index verif_seed = (\1); __CPROVER_assert(verif_seed >= 0, @Q@SimpleRandom seed is non-negative@Q@);", {"max": 1}),
-                                  ("random_vec", r"rng\.random_vec\((\w+)\);", r"HAVOC_VEC(\1);", {"min": 2, "max": 2})],
+                                  ("random_vec", r"rng\.random_vec\((\w+)\);", r"HAVOC_VEC(\1);", {"min": 2, "max": 2}),
+                                  ("accept", r"if \(([^;{}]*?)\)\s*return;", r"if (\1) { g_accepted = 1; return; }", {"min": 1, "max": 1})],
                      post_fn=fac_post_fn(["V"], ["f", "v", "Vf"], stm), maythrow=["OP_perform_op"],
                      contract=spec.frame_contract(),
-                     loop_contracts={0: "__CPROVER_assigns(iter, *fnorm, *op_counter, g_ops, verif_exc, __CPROVER_object_whole(f), __CPROVER_object_whole(v), __CPROVER_object_whole(Vf)) "
-                                        "__CPROVER_loop_invariant(0 <= iter && iter <= 5 && verif_exc == 0) "
+                     loop_contracts={0: "__CPROVER_assigns(iter, *fnorm, *op_counter, g_ops, verif_exc, g_accepted, __CPROVER_object_whole(f), __CPROVER_object_whole(v), __CPROVER_object_whole(Vf)) "
+                                        "__CPROVER_loop_invariant(0 <= iter && iter <= 5 && verif_exc == 0 && !g_accepted) "
                                         "__CPROVER_loop_invariant(iter == 0 ? (g_ops == old_ops_l && (*op_counter) == old_cnt_l) : (g_ops == old_ops_l + 1 && (*op_counter) == old_cnt_l + 1 && (*fnorm) >= (Scalar)0)) "
                                         "__CPROVER_decreases(5 - iter)",
                                      1: "__CPROVER_assigns(count, *fnorm, ortho_err, __CPROVER_object_whole(f), __CPROVER_object_whole(Vf)) "
-                                        "__CPROVER_loop_invariant(0 <= count && count <= 3 && (*fnorm) >= (Scalar)0) __CPROVER_decreases(3 - count)"},
-                     pre_body=" const Index old_ops_l = g_ops; const Index old_cnt_l = (*op_counter);")
+                                        "__CPROVER_loop_invariant(0 <= count && count <= 3 && (*fnorm) >= (Scalar)0 && ortho_err >= (Scalar)0) __CPROVER_decreases(3 - count)"},
+                     pre_body=" const Index old_ops_l = g_ops; const Index old_cnt_l = (*op_counter); g_accepted = 0;")
     report["Arnoldi::expand_basis"] = R.fired
     report.setdefault("abstracted_statements", {})["Arnoldi::expand_basis"] = stm
     return t, spec
@@ -693,13 +695,13 @@ def factorize_spec(which):
                            ("only the operator's exception (precondition excludes from_k > k): entered once more than counted",
                             "verif_exc == EXC_user && g_ops - old_ops == (*op_counter) - old_cnt + 1"),
                            ("shapes preserved", FAC_INV[0][1]), ("clock", "g_clock == old_clock")],
-                 frame=["F->m_k", "F->g_valid_k", "F->m_beta", "*op_counter", "g_ops", "F->m_fac_V.cell", "F->m_fac_H.cell", "F->st_fac", "g_clock"],
+                 frame=["F->m_k", "F->g_valid_k", "F->m_beta", "*op_counter", "g_ops", "F->m_fac_V.cell", "F->m_fac_H.cell", "F->st_fac", "g_clock", "g_accepted"],
                  frame_objs=["F->m_fac_f", "F->m_fac_V.colbuf"] + (["F->m_fac_H.colbuf"] if which == "Arnoldi" else []), may_throw=[1, 7],
                  olds=[("Index", "old_ops", "g_ops"), ("Index", "old_cnt", "*op_counter"), ("Index", "old_k", "F->m_k"), ("Index", "old_clock", "g_clock")],
                  real=hdr + ":factorize_from")
 
 
-FACT_OUTER_INV = ("__CPROVER_assigns(i, F->m_beta, *op_counter, g_ops, verif_exc, F->m_fac_V.cell, F->m_fac_H.cell, __CPROVER_object_whole(F->m_fac_f), "
+FACT_OUTER_INV = ("__CPROVER_assigns(i, F->m_beta, *op_counter, g_ops, verif_exc, g_accepted, F->m_fac_V.cell, F->m_fac_H.cell, __CPROVER_object_whole(F->m_fac_f), "
                   "__CPROVER_object_whole(F->m_fac_V.colbuf), __CPROVER_object_whole(Vf), __CPROVER_object_whole(w)) "
                   "__CPROVER_loop_invariant(from_k <= i && i <= to_m && verif_exc == 0 && F->m_beta >= (Scalar)0 && "
                   "old_ops_l + (i - from_k) <= g_ops && g_ops <= old_ops_l + 2 * (i - from_k) && (*op_counter) == old_cnt_l + (g_ops - old_ops_l)) "
@@ -775,6 +777,7 @@ def f_fac_init(report):
 
 
 DIV_SITE_DEF = r'''
+_Bool g_accepted;      /* ghost: expand_basis returned through its orthogonality acceptance test */
 /* audited floating division site: a zero divisor here is a division by zero on a real input (C13 div.audit) */
 _Bool g_div_zero;      /* ghost: set when an audited division site is reached with a zero divisor */
 #define DIV_SITE(d, what) do { if ((d) == (Scalar)0) g_div_zero = 1; } while (0)
@@ -903,7 +906,7 @@ def restart_spec(gen, retrieve_post):
                            ("operator / decomposition exceptions propagate; counter lags by at most the interrupted application",
                             "(verif_exc == EXC_user ? g_ops == S->m_nmatop + 1 : (S->m_nmatop == g_ops && (verif_exc == EXC_invalid_argument || verif_exc == EXC_runtime_error)))"),
                            ("shapes preserved", SHAPES)],
-                 frame=["S->m_nmatop", "g_ops", "g_clock", "S->st_ritz", "g_ia", "g_ib", "g_va", "g_vb", "g_shift_lo", "g_shift_n", "g_shifts_applied",
+                 frame=["S->m_nmatop", "g_ops", "g_clock", "g_accepted", "S->st_ritz", "g_ia", "g_ib", "g_va", "g_vb", "g_shift_lo", "g_shift_n", "g_shifts_applied",
                         "S->m_fac.m_k", "S->m_fac.g_valid_k", "S->m_fac.m_beta", "S->m_fac.m_fac_V.cell", "S->m_fac.m_fac_H.cell", "S->m_fac.m_fac_H.rows",
                         "S->m_fac.m_fac_H.cols", "S->m_fac.st_fac"],
                  frame_objs=["S->m_ritz_val", "S->m_ritz_est", "S->tag_val", "S->tag_est", "S->m_ritz_vec.coltag", "S->m_fac.m_fac_V.colbuf"] + (["S->m_fac.m_fac_H.colbuf"] if gen else []),
@@ -968,7 +971,7 @@ def compute_spec(gen, sort_post):
                            ("exception type is a documented one and the operator's exception propagates unchanged; counter lags by at most the interrupted application",
                             "(verif_exc == EXC_user ? g_ops == S->m_nmatop + 1 : (S->m_nmatop == g_ops && (verif_exc == EXC_invalid_argument || verif_exc == EXC_runtime_error)))"),
                            ("object keeps consistent shapes (init() can be called again)", SHAPES)],
-                 frame=["S->m_nmatop", "S->m_niter", "S->m_info", "g_ops", "g_clock", "g_restarts", "g_budget", "g_calls", "S->st_ritz", "S->st_conv", "S->cnt_conv",
+                 frame=["S->m_nmatop", "S->m_niter", "S->m_info", "g_ops", "g_clock", "g_accepted", "g_restarts", "g_budget", "g_calls", "S->st_ritz", "S->st_conv", "S->cnt_conv",
                         "g_ia", "g_ib", "g_va", "g_vb", "g_shift_lo", "g_shift_n", "g_shifts_applied",
                         "S->m_fac.m_k", "S->m_fac.g_valid_k", "S->m_fac.m_beta", "S->m_fac.m_fac_V.cell", "S->m_fac.m_fac_H.cell", "S->m_fac.m_fac_H.rows",
                         "S->m_fac.m_fac_H.cols", "S->m_fac.st_fac", "S->g_backtransformed"],
@@ -1001,7 +1004,7 @@ def f_compute(gen, report, sort_post):
         ("restart", r"(?<![\w>])restart\((\w+), selection\);", r"g_budget += 2 * (S->m_ncv - (\1)); g_calls++; restart(S, \1, selection); g_restarts++;", {"max": 1}),
         ("sort", r"(?<![\w>])sort_ritzpair\(sorting\);", "sort_ritzpair(S, sorting);", {"max": 1}),
     ]
-    inv = ("__CPROVER_assigns(i, nconv, nev_adj, verif_exc, S->m_nmatop, g_ops, g_clock, g_restarts, g_budget, g_calls, S->st_ritz, S->st_conv, S->cnt_conv, "
+    inv = ("__CPROVER_assigns(i, nconv, nev_adj, verif_exc, S->m_nmatop, g_ops, g_clock, g_accepted, g_restarts, g_budget, g_calls, S->st_ritz, S->st_conv, S->cnt_conv, "
            "g_ia, g_ib, g_va, g_vb, g_shift_lo, g_shift_n, g_shifts_applied, S->m_fac.m_k, S->m_fac.g_valid_k, S->m_fac.m_beta, S->m_fac.m_fac_V.cell, "
            "S->m_fac.m_fac_H.cell, S->m_fac.m_fac_H.rows, S->m_fac.m_fac_H.cols, S->m_fac.st_fac, "
            "__CPROVER_object_whole(S->m_fac.m_fac_f), __CPROVER_object_whole(S->m_ritz_conv), __CPROVER_object_whole(S->tag_conv), "
@@ -1553,3 +1556,26 @@ def init_coverage(report):
     report["init_coverage"] = detail
     return z3lemma.StaticGroup("init.coverage", ok=not bad, detail="; ".join(bad) or "every mutable data member of Arnoldi, HermEigsBase, GenEigsBase is re-created by init() (or exempt with reason)",
                                obligation="init() re-creates every mutable data member (no state survives from an earlier run)")
+
+
+
+def catch_handlers(report):
+    """Supporting static obligation for C14 `exc.propagates`: the solver / factorization classes contain no handler that
+    swallows or re-throws a copy of the exception (`throw e;` slices the user's exception type)."""
+    from vlib import z3lemma
+    bad, seen = [], 0
+    for hdr in (HB, GB, AH, LH, "SymEigsSolver.h", "SymEigsShiftSolver.h", "GenEigsSolver.h", "GenEigsRealShiftSolver.h", "GenEigsComplexShiftSolver.h",
+                "SymGEigsSolver.h", "SymGEigsShiftSolver.h", "MatOp/internal/ArnoldiOp.h"):
+        raw, st = X.load(hdr)
+        for m in re.finditer(r"\bcatch\s*\(([^)]*)\)\s*\{", st):
+            seen += 1
+            be = X.match_close(st, m.end() - 1)
+            body = st[m.end():be]
+            throws = re.findall(r"\bthrow\b\s*([^;]*);", body)
+            if not throws:
+                bad.append("%s:%d catch(%s) swallows the exception" % (hdr, X.lineno(st, m.start()), m.group(1).strip()))
+            elif any(t.strip() for t in throws):
+                bad.append("%s:%d catch(%s) re-throws a copy (`throw %s;`) instead of `throw;`" % (hdr, X.lineno(st, m.start()), m.group(1).strip(), [t for t in throws if t.strip()][0].strip()))
+    report["catch_handlers"] = {"handlers_found": seen, "bad": bad}
+    return z3lemma.StaticGroup("exc.handlers", ok=not bad, detail="; ".join(bad) or "%d catch handler(s) in the solver / factorization classes, none swallows or copies the exception" % seen,
+                               obligation="the operator's exception leaves the solver unchanged in type (no handler swallows it or re-throws a copy)")
